@@ -142,9 +142,13 @@ def run(tier, seed):
     rc = common.run_tlc("Cell", "MC_Cell0.cfg", wd, timeout=600)
     states += rc.distinct
     trans += rc.generated
+    # one list object refilled in place for every record (a cell under refinement is the caller's one list, updated between calls):
+    # a function that remembers what it derived from "the same" argument object answers for the previous contents
+    CELL = [0.0] * 6
     for x in rc.records:
         u = rng.uniform(0.5, 20)
-        cell = L.cell_from_metric(x["G"], u)
+        CELL[:] = L.cell_from_metric(x["G"], u)
+        cell = CELL
         note = "(metric %s u=%.4g)" % (x["G"], u)
         A, _ = D.run("form_a_mat", [cell], note=note)
         Bt, _ = D.run("form_b_mat", [cell], note=note)
